@@ -52,10 +52,11 @@ def gate_obligations(r, tier, lens, prefix='', ops=('decrypt', 'verify'), thread
 RUNCRY = ['_ZN10AesECB_Enc6runcryEPh', '_ZN10AesECB_Dec6runcryEPh', '_ZN10AesCBC_Enc6runcryEPh', '_ZN10AesCBC_Dec6runcryEPh', '_ZN6AesCTR6runcryEPh',
           '_ZN10AesCFB_Enc6runcryEPh', '_ZN10AesCFB_Dec6runcryEPh', '_ZN6AesOFB6runcryEPh']
 CVWAIT = '_ZNSt18condition_variable4waitERSt11unique_lockISt5mutexE'
+TWAIT = ['pthread_cond_clockwait', 'pthread_cond_timedwait']     # what wait_for / wait_until compile to
 TSTART = '_ZNSt6thread15_M_start_threadESt10unique_ptrINS_6_StateESt14default_deleteIS1_EEPFvvE'
 TJOIN = '_ZNSt6thread4joinEv'
-SCHED_ARGS = ['--auto-resumable', '--yield-calls', ','.join(['pthread_mutex_lock', 'pthread_mutex_unlock', CVWAIT, TSTART, TJOIN]), '--yield-after', 'pthread_mutex_unlock',
-              '--yield-twophase', CVWAIT, '--shared-yield', '--monitor']
+SCHED_ARGS = ['--auto-resumable', '--yield-calls', ','.join(['pthread_mutex_lock', 'pthread_mutex_unlock', CVWAIT, TSTART, TJOIN] + TWAIT), '--yield-after', 'pthread_mutex_unlock',
+              '--yield-twophase', ','.join([CVWAIT] + TWAIT), '--shared-yield', '--monitor']
 PIPE_ROOTS = 'vf_pipe_run,vf_mode_make,vf_bg_buflst,vf_bg_state,vf_bg_nbuf,vf_iobuffer_size,vf_buf_sz,vf_bg_instance_null,vf_bg_live,vf_thread_decode'
 def U_kern_pipe(buf=1):
     rep = []
@@ -87,8 +88,8 @@ PROTO_REPL = ['--replace', '_ZN8iobuffer11load_bufferEP8_IO_FILEb=stub_load', '-
               '--replace', '_ZNSt7__cxx119to_stringEj=stub_to_string',
               '--replace', '_ZStplIcSt11char_traitsIcESaIcEENSt7__cxx1112basic_stringIT_T0_T1_EEPKS5_OS8_=stub_strplus']
 PROTO_ROOTS = 'vf_proto_setup,vf_proto_io,vf_proto_worker,vf_proto_teardown,vf_markmode_new,vf_bg_buflst,vf_bg_state,vf_bg_nbuf,vf_iobuffer_size,vf_buf_sz,vf_bg_instance_null,vf_bg_live,vf_iob_set,vf_iob_total,vf_iob_now,vf_iob_isfinal,vf_iob_block_off'
-PROTO_SCHED = ['--auto-resumable', '--yield-calls', ','.join(['pthread_mutex_lock', 'pthread_mutex_unlock', CVWAIT]), '--yield-after', 'pthread_mutex_unlock',
-               '--yield-twophase', CVWAIT, '--shared-yield', '--monitor']
+PROTO_SCHED = ['--auto-resumable', '--yield-calls', ','.join(['pthread_mutex_lock', 'pthread_mutex_unlock', CVWAIT] + TWAIT), '--yield-after', 'pthread_mutex_unlock',
+               '--yield-twophase', ','.join([CVWAIT] + TWAIT), '--shared-yield', '--monitor']
 def U_proto(buf=1):
     return Unit('proto_b%d' % buf, 'proto_shim.cpp', defines=['WENCRY_VERIF_BUF_SZ=%d' % buf], clang_extra=['-fno-exceptions', '-fno-inline'],
                 extra_srcs=PROTO_SRCS, ir2c_args=PROTO_SCHED + PROTO_REPL + ['--roots', PROTO_ROOTS])
